@@ -190,6 +190,28 @@ def handler3 (fn : String) : Option Handler :=
         | some (ab, best, x) =>
           if !((ab :: x).all fun b => valid3 (qb3 b)) then "skip invalid-box" else
           dvOracle (x.map fun u => boxDist3sq (qb3 u) (qb3 ab)) best o }
+  | "tv3_visit" => some {
+      model := fun a => run (do let ab ← pbox3; let v ← pv3; let mt ← pf; let td ← pf; let x ← p4 pbox3
+                                pure (" ".intercalate (x.map fun u => let r := tvVisit3 (FloatIO.ofHex? "7fefffffffffffff" |>.getD 0) ab td v mt u; s!"{fb r.1} {ff r.2}"))) a
+      oracle := fun a o => match run (do let ab ← pbox3; let v ← pv3; let mt ← pf; let td ← pf; let x ← p4 pbox3; pure (ab, v, mt, td, x)) a with
+        | none => "skip bad-args"
+        | some (ab, v, mt, td, x) =>
+          if !((ab :: x).all fun b => valid3 (qb3 b)) then "skip invalid-box" else
+          let A := qb3 ab; let d := q3 v; let t := q td
+          -- the Minkowski-sum box by its definition: { p1 - p2 } enlarged by the target distance, against the ray from the origin
+          rayOracle (x.map fun u => let U := qb3 u
+            [(U.mins.x - A.maxs.x - t, U.maxs.x - A.mins.x + t, 0, d.x), (U.mins.y - A.maxs.y - t, U.maxs.y - A.mins.y + t, 0, d.y),
+             (U.mins.z - A.maxs.z - t, U.maxs.z - A.mins.z + t, 0, d.z)]) (q mt) o }
+  | "tv2_visit" => some {
+      model := fun a => run (do let ab ← pbox2; let v ← pv2; let mt ← pf; let td ← pf; let x ← p4 pbox2
+                                pure (" ".intercalate (x.map fun u => let r := tvVisit2 (FloatIO.ofHex? "7fefffffffffffff" |>.getD 0) ab td v mt u; s!"{fb r.1} {ff r.2}"))) a
+      oracle := fun a o => match run (do let ab ← pbox2; let v ← pv2; let mt ← pf; let td ← pf; let x ← p4 pbox2; pure (ab, v, mt, td, x)) a with
+        | none => "skip bad-args"
+        | some (ab, v, mt, td, x) =>
+          if !((ab :: x).all fun b => valid2 (qb2 b)) then "skip invalid-box" else
+          let A := qb2 ab; let d := q2 v; let t := q td
+          rayOracle (x.map fun u => let U := qb2 u
+            [(U.mins.x - A.maxs.x - t, U.maxs.x - A.mins.x + t, 0, d.x), (U.mins.y - A.maxs.y - t, U.maxs.y - A.mins.y + t, 0, d.y)]) (q mt) o }
   | "dv2_visit" => some {
       model := fun a => run (do let ab ← pbox2; let best ← pf; let x ← p4 pbox2
                                 let r := x.map fun u => dvVisit2 ab best u
